@@ -117,6 +117,18 @@ func (c *Check) Deadline(q, t time.Duration) time.Time {
 	return c.start.Add(d)
 }
 
+// DeadlineIn is a per-phase budget counted from now.
+func (c *Check) DeadlineIn(q, t time.Duration) time.Time {
+	d := q
+	if !c.Quick() {
+		d = t
+	}
+	if c.Budget > 0 && c.Budget < d {
+		d = c.Budget
+	}
+	return time.Now().Add(d)
+}
+
 // Report records a violation with the given fingerprint. A fingerprint listed open in findings/known.json
 // is printed once as KNOWN-FINDING; anything else is a VIOLATION with a replay artefact.
 func (c *Check) Report(fingerprint, detail string, replay any) {
